@@ -580,6 +580,85 @@ Proof.
   destruct Ev as (kp & -> & -> & Ev); exact Ev.
 Qed.
 
+(* ------------------------------------------------------------------ ValueOp proofs (repair F62) *)
+
+(* what a chain of ValueOps establishes: every operator's Merkle proof verifies (C10 [verify]:
+   the root is RECOMPUTED from index, total, leaf hash and aunts) for the leaf <key, hash of the
+   previous result>, up to the final root *)
+Inductive proved : list vop -> bytes -> bytes -> Prop :=
+| proved_nil a : proved [] a a
+| proved_cons op r a m f :
+    verify H m (kv_leaf H (vo_key op) a) (vo_proof op) = true -> proved r m f -> proved (op :: r) a f.
+
+Lemma from_aunts_some_bounds i t lh ra h : from_aunts H i t lh ra = Some h -> 0 <= i < t.
+Proof.
+  intro E. destruct ra; cbn [from_aunts] in E;
+    (destruct ((i >=? t) || (i <? 0) || (t <=? 0)) eqn:G; [discriminate |]);
+    apply orb_false_iff in G as [G G3]; apply orb_false_iff in G as [G1 G2];
+    rewrite Z.geb_leb in G1; apply Z.leb_gt in G1; apply Z.ltb_ge in G2; lia.
+Qed.
+
+Lemma vop_run_verify op a m :
+  vop_run H op a = Some m -> verify H m (kv_leaf H (vo_key op) a) (vo_proof op) = true.
+Proof.
+  unfold vop_run, verify. intro E.
+  destruct (bytes_eqb (leaf_hash H (kv_leaf H (vo_key op) a)) (pf_leaf_hash (vo_proof op))) eqn:L;
+    cbn [negb] in E; [| discriminate].
+  pose proof (from_aunts_some_bounds _ _ _ _ _ E) as B.
+  assert (pf_total (vo_proof op) <? 0 = false) as -> by (apply Z.ltb_ge; lia).
+  assert (pf_index (vo_proof op) <? 0 = false) as -> by (apply Z.ltb_ge; lia).
+  apply beq_true in L. rewrite <- L, bytes_eqb_refl. cbn [negb]. rewrite L, E. apply bytes_eqb_refl.
+Qed.
+
+Lemma vops_run_proved ops : forall rk a rk' f, vops_run H ops rk a = Some (rk', f) -> proved ops a f.
+Proof.
+  induction ops as [| op r IH]; intros rk a rk' f E.
+  - cbn [vops_run] in E. injection E as _ <-. constructor.
+  - cbn [vops_run] in E.
+    assert (S : forall rk0, match vop_run H op a with Some a0 => vops_run H r rk0 a0 | None => None end = Some (rk', f) ->
+                            proved (op :: r) a f).
+    { intros rk0 E0. destruct (vop_run H op a) as [m|] eqn:Er; [| discriminate].
+      econstructor; [apply vop_run_verify; exact Er | eapply IH; exact E0]. }
+    destruct (vo_key op); [eapply S; exact E |].
+    destruct rk as [| lk rk0]; [discriminate |].
+    destruct (bytes_eqb lk _); [eapply S; exact E | discriminate].
+Qed.
+
+Lemma vops_verify_sound ops root kp value :
+  vops_verify H ops root kp value = true ->
+  exists keys, key_path_to_keys kp = Some keys /\ proved ops value root.
+Proof.
+  unfold vops_verify. intro E.
+  destruct (key_path_to_keys kp) as [keys|]; [| discriminate]. exists keys; split; [reflexivity |].
+  destruct (vops_run H ops (rev keys) value) as [[rk f]|] eqn:Er; [| discriminate].
+  destruct rk; [| discriminate]. apply beq_true in E. subst f. eapply vops_run_proved; exact Er.
+Qed.
+
+(* F62: the root a non-empty chain is accepted against is a hash recomputed from the last
+   operator's index, total, leaf and aunts - never "no root at all" *)
+Lemma proved_root_recomputed ops a f :
+  proved ops a f -> ops <> [] ->
+  exists op x, In op ops /\
+    from_aunts H (pf_index (vo_proof op)) (pf_total (vo_proof op))
+               (leaf_hash H (kv_leaf H (vo_key op) x)) (rev (pf_aunts (vo_proof op))) = Some f.
+Proof.
+  induction 1 as [| op r a m f V P IH]; intro Hn; [congruence |].
+  destruct r as [| op' r'].
+  - inversion P; subst. exists op, a. split; [left; reflexivity |].
+    apply (verify_recomputes H) in V. apply V.
+  - destruct IH as (o & x & Hin & E); [discriminate |]. exists o, x. split; [right; exact Hin | exact E].
+Qed.
+
+Lemma vops_verify_root_recomputed ops root kp value :
+  ops <> [] -> vops_verify H ops root kp value = true ->
+  exists op x, In op ops /\
+    from_aunts H (pf_index (vo_proof op)) (pf_total (vo_proof op))
+               (leaf_hash H (kv_leaf H (vo_key op) x)) (rev (pf_aunts (vo_proof op))) = Some root.
+Proof.
+  intros Hn E. destruct (vops_verify_sound _ _ _ _ E) as (keys & _ & P).
+  eapply proved_root_recomputed; eassumption.
+Qed.
+
 (* ------------------------------------------------------------------ ConsensusParams *)
 
 Definition Consistent_params (o : oracle) (r : rparams) : Prop :=
